@@ -172,13 +172,23 @@ def job_normal(cfg):
             rec.check(tag + "/mean()-returns-a-tensor", False, "%s: %s" % (type(e).__name__, e))
         # samples follow the density: log_prob(mu + sigma z) == log N(z) - sum log sigma
         if kind == "ConditionalDiagonalNormal":
-            s = d.sample(1, context=ctx)
-            lps = d.log_prob(Sym(s.a.reshape((2,) + shape)), context=ctx)
+            ndraw = 2
+            s = d.sample(ndraw, context=ctx)
+            rec.check(tag + "/sample-shape", tuple(s.shape) == (2, ndraw) + shape, str(tuple(s.shape)))
+            flat = Sym(s.a.reshape((2 * ndraw,) + shape))
+            from nflows.utils import torchutils as _tu
+
+            lps = d.log_prob(flat, context=_tu.repeat_rows(ctx, ndraw))
             for i in range(2):
-                zs = sorted({v for e in s.a[i].reshape(-1) for v in tm.free_vars(e.t) if v.args[0].startswith("randn")}, key=lambda v: v.args[0])
-                const, rest = split_const(lps.a[i].t)
-                ref = tm.sub(tm.scale(tm.read_float(-0.5), tm.add(*[tm.mul(z, z) for z in zs])), tm.add(*lss[i]))
-                rec.identity(tag + "/row%d/log_prob(mu+sigma*z)==logN(z)-sum log sigma" % i, rest, ref)
+                for j in range(ndraw):
+                    elems = s.a[i, j].reshape(-1)
+                    zs = sorted({v for e in elems for v in tm.free_vars(e.t) if v.args[0].startswith("randn")}, key=lambda v: v.args[0])
+                    # the draw for context row i must be built from row i's parameters only
+                    rows = {int(v.args[0].split("_")[1]) for e in elems for v in tm.free_vars(e.t) if v.args[0].startswith("ctx_")}
+                    rec.check(tag + "/sample[%d,%d]-uses-its-own-context-row" % (i, j), rows == {i}, "rows %s" % sorted(rows))
+                    const, rest = split_const(lps.a[i * ndraw + j].t)
+                    ref = tm.sub(tm.scale(tm.read_float(-0.5), tm.add(*[tm.mul(z, z) for z in zs])), tm.add(*lss[i]))
+                    rec.identity(tag + "/sample[%d,%d]/log_prob(mu+sigma*z)==logN(z)-sum log sigma" % (i, j), rest, ref)
         if kind == "StandardNormal":
             s = d.sample(3)
             rec.check(tag + "/sample-is-plain-randn", tuple(s.shape) == (3,) + shape and all(e.t.op == "var" and e.t.args[0].startswith("randn") for e in s.a.reshape(-1)))
@@ -340,7 +350,17 @@ def replay(kernel, sig):
             except Exception:
                 bad_mean = True
             res["mean_ok"] = not bad_mean
-            res["reproduced"] = abs(integral - expect) > 1e-5 * max(1.0, expect) or bad_mean
+            bad_sampling = False
+            if kernel == "ConditionalDiagonalNormal":
+                # samples of context row i must follow row i's density: narrow, far-apart rows
+                cc = torch.zeros(3, 2 * D)
+                cc[:, :D] = torch.tensor([[-100.0], [0.0], [100.0]]).expand(3, D)
+                cc[:, D:] = -3.0
+                smp = d.sample(40, context=cc).reshape(3, 40, D)
+                dev = (smp - cc[:, None, :D]).abs().max()
+                res["max_sample_distance_from_own_mean"] = float(dev)
+                bad_sampling = float(dev) > 5.0
+            res["reproduced"] = abs(integral - expect) > 1e-5 * max(1.0, expect) or bad_mean or bad_sampling
         elif kernel == "MixtureOfGaussiansMADE":
             Fn, M = sig["F"], sig["M"]
             net = made_n.MixtureOfGaussiansMADE(Fn, 8, num_blocks=1, num_mixture_components=M)
